@@ -265,12 +265,16 @@ def rule_done(F, R):
                 then = anc["c"][anc["r"].index("then")]
                 if any(y is site for y in walk(then)):
                     for y in walk(anc["c"][anc["r"].index("cond")]):
-                        if y["k"] == "bin" and y["op"] in (">", ">=") and literal_value(y["c"][1]) is not None:
-                            gd = ref_decl(y["c"][0])
+                        # `x > lit` (stored canonically as `lit < x`)
+                        if y["k"] == "bin" and y["op"] in (">", ">=", "<", "<="):
+                            lo, hi = (y["c"][1], y["c"][0]) if y["op"] in (">", ">=") else (y["c"][0], y["c"][1])
+                            if literal_value(lo) is None:
+                                continue
+                            gd = ref_decl(hi)
                             if gd is not None:
-                                strict = y["op"] == ">"
-                                psym = sp.Symbol("guard_%s" % pp(y["c"][0]), positive=True) if strict else sp.Symbol("guard_%s" % pp(y["c"][0]), nonnegative=True)
-                                subs_guard[gd] = literal_value(y["c"][1]) + psym
+                                strict = y["op"] in (">", "<")
+                                psym = sp.Symbol("guard_%s" % pp(hi), positive=True) if strict else sp.Symbol("guard_%s" % pp(hi), nonnegative=True)
+                                subs_guard[gd] = literal_value(lo) + psym
         try:
             cv = kalg.Conv(f, scalar=True, positive=tuple(pos), subst=subs_guard)
             e = cv.conv(arg)
